@@ -81,6 +81,93 @@ def check_call(c, m, call, hist, before=None, float_heights=False):
     return out, 'ok'
 
 
+# ---------------------------------------------------------------------------------------------
+# Clauses that hold whatever the jump-off semantics: once the model stops giving verdicts (a pass in a jump-off, the bar
+# moved before everybody jumped, nobody cleared anything) a history is still held to these, driving the implementation alone.
+
+def universal_call(c, call, hist_calls, bibs, float_heights=False):
+    """Apply `call` to c (mutated) under the universal clauses only.  hist_calls: every call issued so far (refused ones
+    included).  Returns (violations, accepted?)."""
+    op = call[0]
+    stage0 = c.state
+    lvl0 = LEVEL.get(stage0, -1)
+    before = hjimpl.snapshot(c, full=True)
+    cards0 = {j.bib: list(j.attempts_by_height) for j in c.jumpers}
+    r = hjimpl.apply(c, call, float_heights)
+    case = {'kind': 'history', 'bibs': list(bibs), 'calls': [enc(x) for x in hist_calls] + [enc(call)]}
+    if float_heights:
+        case['float_heights'] = True
+    out = []
+    if r[0] == 'refused':
+        if r[1] != 'RuleViolation':
+            out.append(V('refusal-raises-RuleViolation', ['refusal-type', r[1], op], case, r))
+        after = hjimpl.snapshot(c, full=True)
+        if after != before:
+            out.append(V('refused-call-changes-nothing', ['refusal-mutates', op] + diff_fields(before, after)[:2], case,
+                         {'changed': diff_fields(before, after), 'stage_before': stage0, 'stage_after': c.state}))
+        return out, False
+    if LEVEL.get(c.state, -1) < lvl0:
+        out.append(V('stage-only-moves-forward', ['stage-regressed', stage0, c.state], case, [stage0, c.state]))
+    if lvl0 == 3:
+        out.append(V('nothing-after-finished-or-drawn', ['accepted-when-decided', op, stage0], case, c.state))
+    if op == 'add' and stage0 != 'scheduled':
+        out.append(V('accepted-exactly-when-allowed', ['wrongly-accepted', op, stage0, 'athletes join only before the first height'],
+                     case, 'accepted', 'RuleViolation'))
+    if op == 'bar' and stage0 != 'jumpoff' and len(c.heights) >= 2 and Decimal(str(c.heights[-1])) <= Decimal(str(c.heights[-2])):
+        out.append(V('accepted-exactly-when-allowed', ['wrongly-accepted', op, stage0, 'the bar only rises outside a jump-off'],
+                     case, 'accepted', 'RuleViolation'))
+    if op in TRIALS:
+        bib = call[1]
+        card = cards0.get(bib, [])
+        flat = ''.join(card)
+        if 'r' in flat:
+            out.append(V('accepted-exactly-when-allowed', ['wrongly-accepted', op, stage0, 'after retiring'], case,
+                         {'accepted': enc(call), 'card_before': card}, 'RuleViolation: the athlete has retired'))
+        cur = card[-1] if len(card) == len(c.heights) and card else ''
+        if cur.endswith('o') or cur.endswith('-'):
+            out.append(V('accepted-exactly-when-allowed', ['wrongly-accepted', op, stage0, 'after clearing or passing the height'],
+                         case, {'accepted': enc(call), 'card_before': card}, 'RuleViolation'))
+        if len(cur) >= 3:
+            out.append(V('accepted-exactly-when-allowed', ['wrongly-accepted', op, stage0, 'fourth attempt at a height'], case,
+                         {'accepted': enc(call), 'card_before': card}, 'RuleViolation'))
+        if not c.heights:
+            out.append(V('accepted-exactly-when-allowed', ['wrongly-accepted', op, stage0, 'no bar height yet'], case,
+                         {'accepted': enc(call)}, 'RuleViolation'))
+    return out, True
+
+
+def tail_call(c, bibs, draw):
+    """Next call of a universal tail: biased towards what the clauses forbid (trials by athletes who retired) and what
+    moves a competition on (failures, retirements, bar moves)."""
+    retired = [j.bib for j in c.jumpers if 'r' in ''.join(j.attempts_by_height)]
+    k = draw(10)
+    if retired and k < 3:
+        return (TRIALS[draw(len(TRIALS))], retired[draw(len(retired))])
+    if k < 5:
+        last = Decimal(str(c.heights[-1])) if c.heights else FIRST
+        return ('bar', [last + STEP, last, last - STEP, last + 2 * STEP][draw(4)])
+    if k == 9 and draw(3) == 0:
+        return ('add', ['Z', bibs[0]][draw(2)])
+    op = ['failed', 'failed', 'failed', 'cleared', 'cleared', 'retired', 'retired', 'passed'][draw(8)]
+    return (op, bibs[draw(len(bibs))])
+
+
+def universal_tail(c, bibs, hist_calls, draw, steps, float_heights=False, on_call=None):
+    """Continue a history beyond the model's verdicts for `steps` calls.  Returns the violations found."""
+    out = []
+    calls = list(hist_calls)
+    for _ in range(steps):
+        call = tail_call(c, bibs, draw)
+        vs, acc = universal_call(c, call, calls, bibs, float_heights)
+        calls.append(call)
+        if on_call:
+            on_call(call, vs, acc)
+        out.extend(vs)
+        if vs:
+            break
+    return out
+
+
 def start(bibs):
     c = hjimpl.new_comp()
     m = hjmodel.Model()
@@ -114,12 +201,25 @@ def replay(case, on_state=None):
     c, m, hist = start(case['bibs'])
     out = []
     fh = bool(case.get('float_heights'))
+    universal = False
+    issued = list(hist)
     for raw in case['calls'][len(case['bibs']):]:
         call = dec(raw)
+        if universal:
+            vs, acc = universal_call(c, call, issued, case['bibs'], fh)
+            issued.append(call)
+            out.extend(vs)
+            if vs:
+                break
+            continue
         vs, status = check_call(c, m, call, hist, None, fh)
+        issued.append(call)
         out.extend(vs)
         if status.startswith('truncated'):
-            break
+            if vs:
+                break
+            universal = True      # beyond the model's verdicts: the universal clauses still apply
+            continue
         if status == 'ok':
             hist.append(call)
             if on_state:
